@@ -313,8 +313,33 @@ def run(ctx, rep):
                   function='repair', construct='CHG compare without invalid/zero test')
     if nchg == 0:
         raise AnalysisBroken('repair: comparison of a CHG block with its past hash not found')
+    # hash_is_invalid / hash_is_zero answer 0 for every hash when the array uses a reduced hash size (the markers cannot be told from
+    # real hashes): a "not a marker" answer is then no evidence.  The comparison that accepts recovered data must therefore also be
+    # conditioned on the full hash size -- otherwise, with hashsize < 16, the marker bytes are compared as if they were a hash, differ
+    # from the hash of whatever the parity gave, and that data is accepted as the up-to-date content (F29)
+    rep.rule('R-C05-6r', 'repair: the past-hash comparison of a recovered CHG block is reached only with the full hash size (the INVALID / ZERO tests are blind for reduced sizes)', 1)
+    for bc in rp_.calls('blockcmp'):
+        gx = guards_of(rp_, bc, expand=True)
+        if not state_is(gx, st['CHG']):
+            continue
+        full = [(a, p) for a, p in gx if 'BLOCK_HASH_SIZE' in a or 'block_hash_size' in a]
+        okf = any((('!=16' in a.replace(' ', '') and p is False) or ('==16' in a.replace(' ', '') and p is True)) for a, p in full)
+        rep.check(okf, 'R-C05-6r', 'repair: blockcmp of a CHG block requires BLOCK_HASH_SIZE == HASH_MAX', bc.loc(),
+                  'guard on the hash size: %s' % full if okf else 'with a reduced hash size hash_is_invalid() and hash_is_zero() always answer 0: the marker of a never-synced (ZERO) or lost (INVALID) hash is compared like a real hash, never matches, and the rebuilt block -- zeros, or the data of the previous occupant -- is written and reported recovered',
+                  function='repair', construct='marker tests blind for reduced hash')
     ood_ = [i for i in rp_.all_insts() if i.op == 'store' and rp_.expr(i.ops[1]).endswith('.is_outofdate') and rp_.const_of(i.ops[0]) == 1]
-    ok = any(any(a.startswith('hash_is_invalid(') and p for a, p in guards_of(rp_, x)) for x in ood_)
+    # on the side of the test where the hash IS invalid every path to the next entry passes an out-of-date store (the test may be
+    # one disjunct of a larger condition)
+    ok = False
+    for hc_ in rp_.calls('hash_is_invalid'):
+        for br_, ci_ in C04.cond_branches_on_call(rp_, hc_):
+            yes = br_.ops[2][1] if (ci_.op != 'icmp' or ci_.pred == 'ne') else br_.ops[1][1]
+            lp_ = rp_.loop_of(hc_.block)
+            if lp_ is None:
+                continue
+            r_ = rp_.reach([rp_.blocks[yes][0]], stop={x.id for x in ood_}, include_start=True)
+            if rp_.blocks[lp_][0].id not in r_ and not any(x.id in r_ for x in rp_.returns()):
+                ok = True
     rep.check(ok, 'R-C05-6i', 'repair: a CHG block whose past hash was lost is marked out of date (never written back as verified)', rp_.file, '%d out-of-date stores' % len(ood_), function='repair', construct='lost hash out of date')
     sy = P.fn('state_sync_process')
     hc2 = [c for c in C04.hash_compares(sy) if 'failed[' not in ' '.join(sy.expr(o) for o in c.ops)]
